@@ -22,11 +22,14 @@
 (*           1 definitions with one leading zero (!00, !07, !08, !010),    *)
 (*           references canonical; 2 references with two leading zeros     *)
 (*           (!0010), definitions canonical; 3 both, differently           *)
+(*   ac      attachments per position: 0..3 with distinct names and nodes; *)
+(*           4 = the same name twice with different nodes                  *)
 (*   nv      named metadata: 0 none; 1 one definition (before the nodes it *)
 (*           names); 2: !a, !b, !a again; 3: !a three times around !b      *)
 (* Around it the renderer (harness/props/c17) puts a fixed scaffold: a     *)
-(* global, a function, an instruction and a terminator with attachments    *)
-(* and two calls with metadata arguments (one of them an inline tuple).    *)
+(* global, a function declaration, a function definition, an instruction   *)
+(* and a terminator, each with p.ac attachments, and two calls with        *)
+(* metadata arguments (one of them an inline tuple).                       *)
 (*                                                                         *)
 (* TextOf(p) is the abstract text (definitions in textual order, named     *)
 (* metadata with their position, attachment sites); WantOf(p) is what the  *)
@@ -38,7 +41,9 @@
 (*          [k |-> "tuple", id, ops] inline: id must be -1                 *)
 (*          [k |-> "null"] | [k |-> "str", s]                              *)
 (*   named  per name, in order of first occurrence: the merged node list   *)
-(*   sites  global / func / inst / term attachment operand, call arguments *)
+(*   sites  per attachment position (global, decl, func, inst, term) the   *)
+(*          sequence of [name, node] attachments in textual order; and the *)
+(*          metadata call arguments                                        *)
 (*                                                                         *)
 (* The state machine has one step: from the initial state to every         *)
 (* pattern.  Invariants state spec-level sanity (every reference of the    *)
@@ -59,10 +64,13 @@ M == INSTANCE Metadata WITH MaxDefs <- 0, MaxId <- 0, Variant <- "code", Emit <-
 Perms(n) == {s \in [1..n -> 1..n] : \A i, j \in 1..n : i # j => s[i] # s[j]}
 
 Patterns == UNION {
-  [n : {n}, shape : 1..M!NShapes, sparse : BOOLEAN, perm : Perms(n), dm : 0..2, inl : 0..2, nv : 0..3, sp : {0}]
+  [n : {n}, shape : 1..M!NShapes, sparse : BOOLEAN, perm : Perms(n), dm : 0..2, inl : 0..2, nv : 0..3, sp : {0}, ac : {1}]
+  \cup
+  \* 0, 2, 3 attachments per position and repeated names, on a slice of the matrix
+  [n : {n}, shape : 1..M!NShapes, sparse : BOOLEAN, perm : Perms(n), dm : {0}, inl : 0..1, nv : {0}, sp : {0}, ac : {0, 2, 3, 4}]
   \cup
   \* non-canonical spellings of the IDs, on a slice of the matrix
-  [n : {n}, shape : 1..M!NShapes, sparse : BOOLEAN, perm : Perms(n), dm : {0}, inl : 0..1, nv : {0, 2}, sp : 1..3]
+  [n : {n}, shape : 1..M!NShapes, sparse : BOOLEAN, perm : Perms(n), dm : {0}, inl : 0..1, nv : {0, 2}, sp : 1..3, ac : {2}]
   : n \in 1..MaxN }
 
 ---------------------------------------------------------------------------
@@ -97,12 +105,21 @@ NamedText(p) ==
                      [name |-> "b", nodes |-> <<first, first>>, pos |-> "post"],
                      [name |-> "a", nodes |-> <<first>>, pos |-> "post"]>>
 
+\* Attachments.  Every attachment position -- global, function declaration, function
+\* definition, instruction, terminator -- carries p.ac attachments (0..3) with distinct names
+\* and distinct nodes, in a different order at each position; ac = 4: the same name twice
+\* with different nodes on the global and on the functions (LLVM allows repeated kinds there,
+\* as for !type), two different names on the instruction and the terminator.
+AttNames == <<"foo", "bar", "baz">>
+AttNodes(p) == <<Ref(p, 1), Ref(p, p.n), Inline(<<Ref(p, 1)>>)>>
+Att(p, pos) ==     \* pos = 0..4: rotates names and nodes
+  LET k == IF p.ac = 4 THEN 2 ELSE p.ac IN
+  [x \in 1..k |-> [name |-> IF p.ac = 4 /\ pos <= 2 THEN "foo" ELSE AttNames[((x + pos) % 3) + 1],
+                   node |-> AttNodes(p)[((x + 2 * pos) % 3) + 1]]]
+
 Sites(p) ==
-  LET first == Ref(p, 1) last == Ref(p, p.n) IN
-  [global |-> first, func |-> last,
-   inst   |-> IF p.inl = 0 THEN last ELSE Inline(<<first>>),
-   term   |-> first,
-   args   |-> <<last, Inline(<<first, NullOp>>)>>]
+  [global |-> Att(p, 0), decl |-> Att(p, 1), func |-> Att(p, 2), inst |-> Att(p, 3), term |-> Att(p, 4),
+   args   |-> <<Ref(p, p.n), Inline(<<Ref(p, 1), NullOp>>)>>]
 
 TextOf(p) == [defs  |-> [t \in 1..p.n |-> Def(p, p.perm[t])],
               named |-> NamedText(p),
@@ -138,14 +155,20 @@ OpsIdentity(ops) == \A x \in 1..Len(ops) :
    CASE ops[x].k = "ref"   -> ops[x].same
      [] ops[x].k = "tuple" -> OpsIdentity(ops[x].ops)
      [] OTHER              -> TRUE
+\* (The two projections below are flat sequences of one element type -- strings, integers --:
+\* TLC cannot compare values of different shapes, and a wrong observation may have any shape.)
 \* inline-versus-numbered placement: the kind of every operand, inline nodes carry no ID
-OpsKinds(ops) == [x \in 1..Len(ops) |->
-   IF ops[x].k = "tuple" THEN <<"tuple", ops[x].id, OpsKinds(ops[x].ops)>> ELSE <<ops[x].k>>]
-\* the IDs referred to, in place
-OpsIds(ops) == [x \in 1..Len(ops) |->
-   CASE ops[x].k = "ref"   -> <<ops[x].id>>
-     [] ops[x].k = "tuple" -> OpsIds(ops[x].ops)
-     [] OTHER              -> <<>>]
+OpsKinds(ops) ==
+  IF ops = <<>> THEN <<>>
+  ELSE (CASE Head(ops).k = "tuple" -> <<"inline[">> \o (IF Head(ops).id = -1 THEN <<>> ELSE <<"with-id">>)
+                                      \o OpsKinds(Head(ops).ops) \o <<"]">>
+          [] OTHER                 -> <<Head(ops).k>>) \o OpsKinds(Tail(ops))
+\* the IDs referred to, in place (-2 / -3 bracket an inline node, -4 stands for any other operand)
+OpsIds(ops) ==
+  IF ops = <<>> THEN <<>>
+  ELSE (CASE Head(ops).k = "ref"   -> <<Head(ops).id>>
+          [] Head(ops).k = "tuple" -> <<-2>> \o OpsIds(Head(ops).ops) \o <<-3>>
+          [] OTHER                 -> <<-4>>) \o OpsIds(Tail(ops))
 \* reference tokens of a definition line, left to right
 FlatRefs(ops) ==
   IF ops = <<>> THEN <<>>
@@ -153,7 +176,12 @@ FlatRefs(ops) ==
           [] Head(ops).k = "tuple" -> FlatRefs(Head(ops).ops)
           [] OTHER                 -> <<>>) \o FlatRefs(Tail(ops))
 
-SiteOps(s) == <<s.global, s.func, s.inst, s.term>> \o s.args
+AttNodesOf(a) == [x \in 1..Len(a) |-> a[x].node]
+AttNamesOf(a) == [x \in 1..Len(a) |-> a[x].name]
+SiteOps(s)   == AttNodesOf(s.global) \o AttNodesOf(s.decl) \o AttNodesOf(s.func)
+                \o AttNodesOf(s.inst) \o AttNodesOf(s.term) \o s.args
+\* name and number of the attachments at every position, in order
+SiteNames(s) == <<AttNamesOf(s.global), AttNamesOf(s.decl), AttNamesOf(s.func), AttNamesOf(s.inst), AttNamesOf(s.term)>>
 AllOps(w)  == [x \in 1..Len(w.defs) |-> w.defs[x].ops]
 NamedOps(w) == [x \in 1..Len(w.named) |-> w.named[x].nodes]
 
